@@ -421,13 +421,47 @@ func runPair(t *rapid.T, aspect string, kind string) {
 	c := obs.Begin(aspect, "%s.%s/%s recv=%s args=[%s]", p.recv, p.concrete, p.generic, recvSpec, strings.Join(descs, " | "))
 	c.Classf("%s.%s", p.recv, p.concrete)
 	c.Classf("method=%s", p.concrete)
+	// with probability 1/3 the receiver is passed as one of its own operands (in both calls): the
+	// concrete and the generic method must agree under aliasing as well
+	alias := -1
+	if rapid.IntRange(0, 2).Draw(t, "aliasReceiver") == 0 {
+		var cand []int
+		for i, s := range specs {
+			if s.kind != recvSpec.kind || p.mtype.In(i+1) != p.mtype.In(0) {
+				continue
+			}
+			switch s.kind {
+			case "scalar":
+				cand = append(cand, i)
+			case "vector":
+				if s.v.N() == recvSpec.v.N() {
+					cand = append(cand, i)
+				}
+			case "matrix":
+				if s.m.Rows == recvSpec.m.Rows && s.m.Cols == recvSpec.m.Cols {
+					cand = append(cand, i)
+				}
+			}
+		}
+		if len(cand) > 0 {
+			alias = cand[rapid.IntRange(0, len(cand)-1).Draw(t, "aliasArg")]
+		}
+	}
 	build := func() (reflect.Value, []reflect.Value) {
 		r := recvSpec.build()
 		var as []reflect.Value
-		for _, s := range specs {
-			as = append(as, s.build())
+		for i, s := range specs {
+			if i == alias {
+				as = append(as, r)
+			} else {
+				as = append(as, s.build())
+			}
 		}
 		return r, as
+	}
+	if alias >= 0 {
+		c.Class("receiver aliases an operand")
+		c.SetDesc(c.Desc() + fmt.Sprintf(" receiver==arg%d", alias+1))
 	}
 	r1, a1 := build()
 	r2, a2 := build()
